@@ -1,181 +1,117 @@
 (* C05 — keep-balance never trashes a needed or too-new replica: property theorems only.
-   Model: model/C05_model.v (`balance` = cleanupMounts; setupLookupTables; balanceBlock, with the
-   rendezvous rank and the rendezvousLess order of device ids as parameters).  Specification
-   vocabulary (physical devices, `Spec`, `hyp_b`): model/C05_run.v and proofs/C05_spec.v.
-   Suffixes: _refuted = the statement fails on the model of the current code (witness observed on the
-   real code: known_findings.txt F1, F10, F12, F8); _partial = proved under the stated hypotheses. *)
+   Model: model/C05_model.v = cleanupMounts; setupLookupTables; balanceBlock as they are in /repo after
+   the fix: commits 4181588 (F1/F10), 0c179f4 (F12), b66ed86 (F8); the rendezvous rank and the
+   rendezvousLess order of device ids are parameters.  `m_out c` is the model's output on a case
+   (model/C05_run.v); specification vocabulary (physical devices, `Spec`): model/C05_run.v, proofs/C05_spec.v.
+   A case is well-formed (wf_b) when mount ids are distinct, replicas point to reported mounts and Desired
+   has one entry per class - structural facts of the Go data (pointers, a map).
+   The algorithm before the repairs is kept in model/C05_old_model.v: the theorems named *_old_* are about
+   it only (regression witnesses: it violates the specification). *)
 From Coq Require Import List Arith Bool NArith.
-From AV Require Import model.C05_model model.C05_run proofs.C05_proofs proofs.C05_safety proofs.C05_repl
-  proofs.C05_phys proofs.C05_spec proofs.C05_witness model.C05_fixed proofs.C05_fixed_proofs
-  model.C05_fixed2 proofs.C05_fixed2_proofs.
+From AV Require Import model.C05_model model.C05_old_model model.C05_run proofs.C05_proofs proofs.C05_safety proofs.C05_repl
+  proofs.C05_phys proofs.C05_spec proofs.C05_witness proofs.C05_fixed_proofs proofs.C05_main.
 Import ListNotations.
 
-(* -- clauses that hold for every layout, every replica set, every Desired ------------------------- *)
+(* ---- the whole property, for every layout, replica set and Desired --------------------------------- *)
+Theorem C05_meets_spec : forall c, wf_b c = true ->
+  let '(chs, lost) := m_out c in Spec c (trashes chs) (pulls chs) lost.
+Proof. exact fixed2_meets_spec. Qed.
+Print Assumptions C05_meets_spec.
 
-(* a Trash names an observed replica (mount, mtime) that is older than MinMtime *)
-Theorem C05_trash_old_only : forall dflt rank devrank minMtime raw sro repl desired m t,
-  In (Trash m t) (fst (balance dflt rank devrank minMtime raw sro repl desired)) ->
-  t < minMtime /\ In (m, t) repl.
-Proof. exact trash_old_only. Qed.
-Print Assumptions C05_trash_old_only.
+(* ---- its clauses written out ----------------------------------------------------------------------- *)
 
-(* ... on a mount that is reported writable, of a service that is not read-only *)
-Theorem C05_trash_writable_only : forall dflt rank devrank minMtime raw sro repl desired m t,
-  In (Trash m t) (fst (balance dflt rank devrank minMtime raw sro repl desired)) ->
-  exists r, In r raw /\ mid r = m /\ mro r = false /\ ~ In (msrv r) sro.
-Proof. exact trash_writable_only. Qed.
-Print Assumptions C05_trash_writable_only.
+(* a Trash names an observed replica (mount, mtime), older than MinMtime, on a writable mount (after
+   cleanupMounts and the propagation of the service's read-only flag) *)
+Theorem C05_trash_old_writable_only : forall c, wf_b c = true -> forall m t,
+  In (m, t) (trashes (fst (m_out c))) ->
+  In (m, t) (c_repl c) /\ t < c_min c /\
+  exists x, In x (setup (c_raw c) (c_sro c)) /\ mid x = m /\ mro x = false.
+Proof. exact trash_old_writable_only. Qed.
+Print Assumptions C05_trash_old_writable_only.
 
-(* a Pull targets a writable mount through which no replica is seen; some replica exists and the
-   source is the service of blk.Replicas[0] *)
-Theorem C05_pull_targets_ok : forall dflt rank devrank minMtime raw sro repl desired m f,
-  In (Pull m f) (fst (balance dflt rank devrank minMtime raw sro repl desired)) ->
-  (exists r, In r raw /\ mid r = m /\ mro r = false /\ ~ In (msrv r) sro) /\
-  (forall t, ~ In (m, t) repl) /\
-  exists m0 t0 rest, repl = (m0, t0) :: rest /\
-     f = match find (fun x => mid x =? m0) raw with Some x => msrv x | None => 0 end.
+(* ... i.e. a mount reported writable by a service that is not read-only *)
+Theorem C05_effective_writable_is_reported_writable : forall raw sro x,
+  In x (setup raw sro) -> mro x = false ->
+  exists r, In r raw /\ mid r = mid x /\ msrv r = msrv x /\ mro r = false /\ ~ In (msrv r) sro.
+Proof. exact eff_writable_raw. Qed.
+Print Assumptions C05_effective_writable_is_reported_writable.
+
+(* nothing at all is trashed while some desired class is under-replicated, counted over distinct
+   physical devices (a class that no mount offers counts 0) *)
+Theorem C05_no_trash_when_underreplicated : forall c, wf_b c = true -> forall k d,
+  In (k, d) (c_desired c) -> 0 < d ->
+  phys_repl (c_dflt c) k (setup (c_raw c) (c_sro c)) (held (setup (c_raw c) (c_sro c)) (c_repl c)) < d ->
+  trashes (fst (m_out c)) = [].
+Proof. exact no_trash_when_underreplicated. Qed.
+Print Assumptions C05_no_trash_when_underreplicated.
+
+(* carrying out every trash while no pull succeeds leaves each desired class with at least
+   min(desired, before) replication over distinct physical devices *)
+Theorem C05_trash_preserves_replication : forall c, wf_b c = true -> forall k d,
+  In (k, d) (c_desired c) -> 0 < d ->
+  Nat.min d (phys_repl (c_dflt c) k (setup (c_raw c) (c_sro c)) (held (setup (c_raw c) (c_sro c)) (c_repl c))) <=
+  phys_repl (c_dflt c) k (setup (c_raw c) (c_sro c))
+            (after (setup (c_raw c) (c_sro c)) (c_repl c) (trashes (fst (m_out c)))).
+Proof. exact trash_preserves_replication. Qed.
+Print Assumptions C05_trash_preserves_replication.
+
+(* a Pull targets a writable mount through which no replica is seen; the source service has one *)
+Theorem C05_pull_targets_ok : forall c, wf_b c = true -> forall m f,
+  In (m, f) (pulls (fst (m_out c))) ->
+  (exists x, In x (setup (c_raw c) (c_sro c)) /\ mid x = m /\ mro x = false) /\
+  (forall t, ~ In (m, t) (c_repl c)) /\
+  exists i t x, In (i, t) (c_repl c) /\ In x (c_raw c) /\ mid x = i /\ msrv x = f.
 Proof. exact pull_targets_ok. Qed.
 Print Assumptions C05_pull_targets_ok.
 
-(* when balanceBlock's own `underreplicated` flag is set, nothing at all is trashed *)
-Theorem C05_no_trash_when_flag_set : forall dflt rank devrank minMtime raw sro repl desired,
-  under_flag dflt rank devrank (setup raw sro) repl (classes_of dflt (setup raw sro)) desired = true ->
-  trashes (fst (balance dflt rank devrank minMtime raw sro repl desired)) = [].
-Proof. exact no_trash_when_flag. Qed.
-Print Assumptions C05_no_trash_when_flag_set.
-
-(* the flag is set whenever the replicas seen through mounts of a class that balanceBlock walks
-   (counted per mount) fall short of the desired replication *)
-Theorem C05_flag_set_when_short : forall dflt rank devrank mounts repl classes desired k,
-  In k classes -> 0 < lookup desired k ->
-  have_m dflt k mounts repl < lookup desired k ->
-  under_flag dflt rank devrank mounts repl classes desired = true.
-Proof. exact flag_set_when_short. Qed.
-Print Assumptions C05_flag_set_when_short.
-
-(* a referenced block without any replica is reported lost if some mount is writable *)
-Theorem C05_lost_reported : forall dflt rank devrank minMtime raw sro desired k,
-  In k (classes_of dflt (setup raw sro)) -> 0 < lookup desired k ->
-  (exists x, In x (setup raw sro) /\ mro x = false) ->
-  snd (balance dflt rank devrank minMtime raw sro [] desired) = true.
-Proof. intros. eapply lost_reported; eauto. Qed.
+(* a referenced block with no replica anywhere is reported lost - whatever is writable *)
+Theorem C05_lost_reported : forall c, wf_b c = true ->
+  c_repl c = [] -> (exists k d, In (k, d) (c_desired c) /\ 0 < d) -> snd (m_out c) = true.
+Proof. exact lost_reported. Qed.
 Print Assumptions C05_lost_reported.
 
-(* ... but not when everything is read-only (F8) *)
-Theorem C05_lost_reported_refuted : exists dflt rank devrank minMtime raw sro desired k,
-  In k (classes_of dflt (setup raw sro)) /\ 0 < lookup desired k /\
-  snd (balance dflt rank devrank minMtime raw sro [] desired) = false.
-Proof.
-  exists 1, (fun s => nth s [0; 1] 0), (fun d => nth d [3; 2; 1; 0] 0), 100,
-         [mkm 1 0 1 true 1 []; mkm 2 1 2 true 1 [2]; mkm 3 1 3 true 1 [2]], [], [(1, 1); (2, 1)], 1.
-  vm_compute. auto.
-Qed.
-Print Assumptions C05_lost_reported_refuted.
-
-(* -- the two replication-safety clauses, physical-device reading --------------------------------- *)
-
-(* "nothing is trashed while a desired class is under-replicated": fails when a device is mounted on
-   two servers (F1: counted twice) and when the desired class is offered by no mount (F12) *)
-Theorem C05_no_trash_when_underreplicated_refuted :
-  (exists c k, 0 < lookup (c_desired c) k /\ In k (classes_of (c_dflt c) (setup (c_raw c) (c_sro c))) /\
-     phys_repl (c_dflt c) k (setup (c_raw c) (c_sro c)) (held (setup (c_raw c) (c_sro c)) (c_repl c)) < lookup (c_desired c) k /\
-     trashes (fst (m_out c)) <> []) /\
-  (exists c k, 0 < lookup (c_desired c) k /\ unshared (setup (c_raw c) (c_sro c)) /\
-     phys_repl (c_dflt c) k (setup (c_raw c) (c_sro c)) (held (setup (c_raw c) (c_sro c)) (c_repl c)) < lookup (c_desired c) k /\
-     trashes (fst (m_out c)) <> []).
-Proof.
-  split.
-  - (* F1: empty best mount with Replication 2, one device seen through mounts 2 and 3, a replica on a
-       "special" mount; default is physically at 1 < 2 and the special replica is trashed *)
-    exists (mkcase 1 [mkm 1 0 1 false 2 []; mkm 2 1 2 false 1 []; mkm 3 2 2 false 1 []; mkm 4 3 3 false 1 [2]] []
-                   [(2, 40); (3, 40); (4, 60)] [(1, 2)] [0; 1; 2; 3] [0; 1; 2; 3]), 1.
-    vm_compute. split; [auto|]. split; [auto|]. split; [auto|discriminate].
-  - exists w_f12, 2. split; [vm_compute; auto|]. split.
-    + split; apply nodupb_NoDup; vm_compute; reflexivity.
-    + vm_compute. split; [auto|discriminate].
-Qed.
-Print Assumptions C05_no_trash_when_underreplicated_refuted.
-
-Theorem C05_no_trash_when_underreplicated_partial : forall dflt rank devrank minMtime raw sro repl desired k,
-  (* every device is mounted once; the class is offered by some mount (or is "default") *)
-  unshared (setup raw sro) -> In k (classes_of dflt (setup raw sro)) ->
-  0 < lookup desired k ->
-  phys_repl dflt k (setup raw sro) (held (setup raw sro) repl) < lookup desired k ->
-  trashes (fst (balance dflt rank devrank minMtime raw sro repl desired)) = [].
-Proof. exact under_partial. Qed.
-Print Assumptions C05_no_trash_when_underreplicated_partial.
-
-(* "carrying out every trash leaves each class with min(desired, before) replication over distinct
-   devices": fails with a shared device (F1) and, without any shared device, when a server has two
-   mounts of the class (F10) *)
-Theorem C05_trash_preserves_replication_refuted :
-  (exists c k, 0 < lookup (c_desired c) k /\
-     phys_repl (c_dflt c) k (setup (c_raw c) (c_sro c)) (after (setup (c_raw c) (c_sro c)) (c_repl c) (trashes (fst (m_out c)))) <
-     Nat.min (lookup (c_desired c) k) (phys_repl (c_dflt c) k (setup (c_raw c) (c_sro c)) (held (setup (c_raw c) (c_sro c)) (c_repl c)))) /\
-  (exists c k, 0 < lookup (c_desired c) k /\ unshared (setup (c_raw c) (c_sro c)) /\
-     In k (classes_of (c_dflt c) (setup (c_raw c) (c_sro c))) /\
-     phys_repl (c_dflt c) k (setup (c_raw c) (c_sro c)) (after (setup (c_raw c) (c_sro c)) (c_repl c) (trashes (fst (m_out c)))) <
-     Nat.min (lookup (c_desired c) k) (phys_repl (c_dflt c) k (setup (c_raw c) (c_sro c)) (held (setup (c_raw c) (c_sro c)) (c_repl c)))).
-Proof.
-  split.
-  - exists w_f1, 1. vm_compute. auto.
-  - exists w_f10, 0. split; [vm_compute; auto|]. split; [split; apply nodupb_NoDup; vm_compute; reflexivity|].
-    split; [vm_compute; auto|vm_compute; auto].
-Qed.
-Print Assumptions C05_trash_preserves_replication_refuted.
-
-Theorem C05_trash_preserves_replication_partial : forall dflt rank devrank minMtime raw sro repl desired k,
-  (* every device is mounted once; no server has two mounts of class k; k is offered by some mount *)
-  unshared (setup raw sro) -> NoDup (map msrv (filter (inclass dflt k) (setup raw sro))) ->
-  In k (classes_of dflt (setup raw sro)) -> 0 < lookup desired k ->
-  Nat.min (lookup desired k) (phys_repl dflt k (setup raw sro) (held (setup raw sro) repl)) <=
-  phys_repl dflt k (setup raw sro)
-            (after (setup raw sro) repl (trashes (fst (balance dflt rank devrank minMtime raw sro repl desired)))).
-Proof. exact pres_partial. Qed.
-Print Assumptions C05_trash_preserves_replication_partial.
-
-(* -- the evaluator used by the harness ---------------------------------------------------------- *)
+(* ---- the evaluator used by the harness -------------------------------------------------------------- *)
 
 (* the boolean that judges the implementation's output reflects the Prop-level specification *)
 Theorem C05_spec_b_reflects : forall c tr pl lost, spec_core c tr pl lost = true <-> Spec c tr pl lost.
 Proof. exact spec_core_reflects. Qed.
 Print Assumptions C05_spec_b_reflects.
 
-Theorem C05_spec_bits_zero_iff : forall c tr pl lost, spec_bits c tr pl lost = 0%N <-> spec_core c tr pl lost = true.
-Proof. exact spec_bits_zero. Qed.
-Print Assumptions C05_spec_bits_zero_iff.
+(* well-formed cases exist with trash, pull and lost outcomes *)
+Theorem C05_examples :
+  wf_b ex_ok1 = true /\ trashes (fst (m_out ex_ok1)) = [(3, 12)] /\
+  wf_b ex_ok2 = true /\ pulls (fst (m_out ex_ok2)) = [(1, 1)] /\ trashes (fst (m_out ex_ok2)) = [] /\
+  wf_b ex_ok3 = true /\ snd (m_out ex_ok3) = true.
+Proof. exact main_examples. Qed.
+Print Assumptions C05_examples.
 
-(* under hyp_b (devices mounted once, Desired well-formed, every desired class offered on pairwise
-   different servers, something writable) the model's output meets the whole specification; the
-   evaluator never accepts a known-finding bit on such a case *)
-Theorem C05_model_meets_spec_partial : forall c, hyp_b c = true ->
-  let '(chs, lost) := m_out c in Spec c (trashes chs) (pulls chs) lost.
+(* ---- regression witnesses: the algorithm BEFORE the repairs (model/C05_old_model.v) ----------------- *)
+
+(* it violated both replication clauses and the lost clause: F1 (device mounted on two servers counted
+   twice), F10 (class member trashed after a non-member satisfied the class), F12 (desired class offered
+   by no mount), F8 (nothing writable) - each witness was observed on the real code before the fix *)
+Theorem C05_old_algorithm_refuted :
+  (* F1 *)  (trashes (fst (m_out_old w_f1)) = [(4, 60)] /\ before_of w_f1 1 = 2 /\ wf_b w_f1 = true /\
+             phys_repl 1 1 (eff_of w_f1) (after (eff_of w_f1) (c_repl w_f1) (trashes (fst (m_out_old w_f1)))) = 1 /\
+             lookup (c_desired w_f1) 1 = 2) /\
+  (* F10 *) (trashes (fst (m_out_old w_f10)) = [(2, 11)] /\ before_of w_f10 0 = 2 /\ wf_b w_f10 = true /\
+             phys_repl 1 0 (eff_of w_f10) (after (eff_of w_f10) (c_repl w_f10) (trashes (fst (m_out_old w_f10)))) = 1 /\
+             lookup (c_desired w_f10) 0 = 2) /\
+  (* F12 *) (trashes (fst (m_out_old w_f12)) = [(2, 11)] /\ before_of w_f12 2 = 0 /\ lookup (c_desired w_f12) 2 = 1 /\ wf_b w_f12 = true) /\
+  (* F8 *)  (snd (m_out_old w_f8) = false /\ c_repl w_f8 = [] /\ lookup (c_desired w_f8) 1 = 1 /\ wf_b w_f8 = true).
+Proof. vm_compute. repeat split; reflexivity. Qed.
+Print Assumptions C05_old_algorithm_refuted.
+
+(* ... while the repaired algorithm trashes nothing on these layouts and reports the lost block *)
+Theorem C05_repaired_on_old_witnesses :
+  trashes (fst (m_out w_f1)) = [] /\ trashes (fst (m_out w_f1b)) = [] /\ trashes (fst (m_out w_f10)) = [] /\
+  trashes (fst (m_out w_f12)) = [] /\ snd (m_out w_f8) = true.
+Proof. exact fixed2_on_witnesses. Qed.
+Print Assumptions C05_repaired_on_old_witnesses.
+
+(* the old algorithm met the specification only under hyp_b: every device mounted once, every desired
+   class offered on pairwise different servers, something writable *)
+Theorem C05_old_algorithm_partial : forall c, hyp_b c = true ->
+  let '(chs, lost) := m_out_old c in Spec c (trashes chs) (pulls chs) lost.
 Proof. exact model_meets_spec_partial. Qed.
-Print Assumptions C05_model_meets_spec_partial.
-
-(* the hypotheses are satisfiable, with trash / pull / lost outcomes *)
-Theorem C05_hypotheses_satisfiable :
-  hyp_b ex_ok1 = true /\ trashes (fst (m_out ex_ok1)) = [(3, 12)] /\
-  hyp_b ex_ok2 = true /\ pulls (fst (m_out ex_ok2)) = [(1, 1)] /\ trashes (fst (m_out ex_ok2)) = [] /\
-  hyp_b ex_ok3 = true /\ snd (m_out ex_ok3) = true.
-Proof. exact ex_ok_facts. Qed.
-Print Assumptions C05_hypotheses_satisfiable.
-
-(* -- the proposed repairs.  Recommended: model/C05_fixed2.v = current code + fixes/F1_F10.diff, F8.diff,
-      F12.diff (protection stays in trySlot; upstream's balancerSuite still passes).  Alternative:
-      model/C05_fixed.v = current code + fixes/F1_F10_alt_protection_pass.diff, F8.diff, F12.diff.
-      Both are exercised by the harness only on a patched scratch copy (VERIF_C05_FIXED=2 / =1). ------- *)
-
-(* the recommended repair meets the whole specification on every well-formed case *)
-Theorem C05_fixed2_meets_spec : forall c, wf_b c = true ->
-  let '(chs, lost) := m_out_f2 c in Spec c (trashes chs) (pulls chs) lost.
-Proof. exact fixed2_meets_spec. Qed.
-Print Assumptions C05_fixed2_meets_spec.
-
-
-(* the repaired algorithm meets the whole specification on every well-formed case: no hypothesis on
-   shared devices, mounts per class and server, offered classes or read-only flags *)
-Theorem C05_fixed_meets_spec : forall c, wf_b c = true ->
-  let '(chs, lost) := m_out_f c in Spec c (trashes chs) (pulls chs) lost.
-Proof. exact fixed_meets_spec. Qed.
-Print Assumptions C05_fixed_meets_spec.
+Print Assumptions C05_old_algorithm_partial.
